@@ -22,6 +22,44 @@ def parseRowsShow (rows : List Bytes) : String :=
     | r :: rs => let (st', res) := parse st r; showPR res :: go st' rs
   ",".intercalate (go {} rows)
 
+/-- histories: N:<name> | A:<pid>:<name> | O:<id|nil> | W:<id|nil> | J:<id|nil> ; one result per op joined by ';' -/
+def histRun (f : Fmt) (ops : List String) : Option String := do
+  let idOf (s : String) : Option (Option Nat) := if s == "nil" then some none else s.toNat?.map some
+  let rec go (st : Store) : List String → Option (List String)
+    | [] => some []
+    | op :: rest =>
+      match op.splitOn ":" with
+      | ["N", n] => do
+        let n ← unhex n
+        let (st', id) := st.newRoot n
+        let r ← go st' rest
+        pure (("id=" ++ toString id) :: r)
+      | ["A", pid, n] => do
+        let pid ← pid.toNat?
+        let n ← unhex n
+        let (st', id) := st.add pid n
+        let r ← go st' rest
+        pure (("id=" ++ (match id with | some i => toString i | none => "none")) :: r)
+      | ["O", id] => do
+        let id ← idOf id
+        let (st', o) := st.fromRoot id (fun t => showOut (outputRootText f t {})) (fun e => "w=- e=" ++ showErr (some e))
+        let r ← go st' rest
+        pure (o :: r)
+      | ["W", id] => do
+        let id ← idOf id
+        let (st', o) := st.fromRoot id (fun t => let (vs, e) := walkRoot f t none; "v=" ++ showVisits vs ++ " e=" ++ showErr e)
+          (fun e => "v=_ e=" ++ showErr (some e))
+        let r ← go st' rest
+        pure (o :: r)
+      | ["J", id] => do
+        let id ← idOf id
+        let (st', o) := st.fromRoot id (fun t => "f=" ++ showF (toFormatted t) ++ " e=nil") (fun e => "f=_ e=" ++ showErr (some e))
+        let r ← go st' rest
+        pure (o :: r)
+      | _ => none
+  let rs ← go {} ops
+  pure ("#".intercalate rs)
+
 def handle (words : List String) : Option String :=
   match words with
   | ["scan", doc] => do
@@ -105,6 +143,21 @@ def handle (words : List String) : Option String :=
     let fs ← parseFS fs
     let t ← treeOf tree
     pure ("e=" ++ showErr (verifyRootsApi Fmt.default target (strict == "1") [t] fs))
+  | ["wasm", mode, fmt, exts, fail, doc] => do
+    let f ← fmtOf (← unhexList fmt)
+    let exts ← unhexList exts
+    let d ← unhex doc
+    let inp := inputOf fail d
+    match mode with
+    | "text" => pure (showOut (wasmOutput f false exts inp))
+    | "dry" => pure (showOut (wasmOutput f true exts inp))
+    | "json" =>
+      let (fs, e) := wasmOutputFormatted inp
+      pure ("f=" ++ (if fs.isEmpty then "_" else String.join (fs.map showF)) ++ " e=" ++ showErr e)
+    | _ => none
+  | ["hist", fmt, ops] => do
+    let f ← fmtOf (← unhexList fmt)
+    histRun f (ops.splitOn ";")
   | _ => none
 
 partial def loop (hin hout : IO.FS.Stream) : IO Unit := do
